@@ -9,6 +9,7 @@ size_t unhex(const char* s, uint8_t* out, size_t max);
 void puthex(const uint8_t* p, size_t n);
 uint8_t* ext_place(char place, long off, const uint8_t* bytes, size_t n);
 uint8_t* ext_source(const uint8_t* bytes, size_t n);
+void ext_dest_hint(uint8_t* p);
 uint8_t* ext_source_typed(const uint8_t* bytes, size_t n, size_t elem);   /* keeps the source aligned for its element type */
 int ext_call(void (*fn)(void*), void* ctx, char* status, size_t slen, uint8_t* arena);
 void ext_result(const char* status, uint64_t ret, long rc, uint64_t out, uint8_t* arena, size_t alen);
